@@ -186,6 +186,20 @@ def build() -> Check:
                     dep = "max_concurrency" in ast.unparse(st.value)
         elif mw is not None:
             dep = "max_concurrency" in ast.unparse(mw)
+        # ... and bounded the right way: with a limit of 2 and 5 inputs the pool has 2 workers; without a limit, at most one per input
+        sized = True
+        if dep and isinstance(mw, ast.Name):
+            from sa.common import MiniEvalUnknown, mini_eval
+            defs_mw = [st.value for st in ast.walk(ex.node) if isinstance(st, ast.Assign) and isinstance(st.targets[0], ast.Name) and st.targets[0].id == mw.id]
+            try:
+                v1 = mini_eval(defs_mw[0], {"self.max_concurrency": 2, "len(self.executables)": 5})
+                v2 = mini_eval(defs_mw[0], {"self.max_concurrency": None, "len(self.executables)": 5})
+                sized = v1 == 2 and isinstance(v2, int) and 1 <= v2 <= 5
+                if not sized:
+                    ck.ob("R2.pool-bounded-by-max-concurrency", fn_construct(ex), False,
+                          f"max_workers = {ast.unparse(defs_mw[0])} gives {v1} workers for max_concurrency=2 over 5 inputs and {v2} without a limit", cell="evaluated")
+            except (MiniEvalUnknown, IndexError) as u_:
+                ck.undecided_rule(f"R2.pool-bounded-by-max-concurrency: `{u_}` in the pool size is not understood")
         ck.ob("R2.pool-bounded-by-max-concurrency", fn_construct(ex), dep and len(pools) == 1,
               f"{len(pools)} pool(s); max_workers={ast.unparse(mw) if mw is not None else None}")
 
@@ -217,6 +231,26 @@ def build() -> Check:
     ck.ob("R3.fail-fast-means-any-failure", fn_construct(gr), bool(z_cls) and z_cls <= SOME_FAILURE and bool(z_dec) and z_dec <= NO_FAILURE,
           f"stop decision compares {sorted(z_dec)} (expected one of {sorted(NO_FAILURE)}), classifier compares {sorted(z_cls)} (expected one of {sorted(SOME_FAILURE)}): "
           "without a configured tolerance the call must stop on, and report, the first failure - not on none")
+    # every division by a count happens where that count is known to be positive ("for all item counts, including zero": an empty map with a tolerated
+    # failure percentage must not die of ZeroDivisionError while its result is classified)
+    for fn_x in (sc, ic, gr):
+        par_x = {}
+        for n in ast.walk(fn_x.node):
+            for c in ast.iter_child_nodes(n):
+                par_x[id(c)] = n
+        for n in ast.walk(fn_x.node):
+            if isinstance(n, ast.BinOp) and isinstance(n.op, (ast.Div, ast.FloorDiv, ast.Mod)) and not isinstance(n.right, ast.Constant):
+                den = norm_atom(ast.unparse(n.right))
+                cur, ok_div = par_x.get(id(n)), False
+                while cur is not None:
+                    if isinstance(cur, ast.If) and any(n is x for b in cur.body for x in ast.walk(b)):
+                        tests = cur.test.values if isinstance(cur.test, ast.BoolOp) and isinstance(cur.test.op, ast.And) else [cur.test]
+                        if any(norm_atom(ast.unparse(t_)) in (f"{den} > 0", f"{den} >= 1", f"{den} != 0") for t_ in tests):
+                            ok_div = True
+                    cur = par_x.get(id(cur))
+                ck.ob("R3.division-by-a-count-is-guarded", fn_construct(fn_x), ok_div,
+                      f"`{ast.unparse(n)}` is computed where `{den} > 0` is not established: with zero inputs the call dies of ZeroDivisionError instead of returning an empty batch",
+                      cell=den)
     # a quantity derived locally on both sides (failure_percentage) is derived from the same counters: the atoms above compare names only
     def local_defs(fn_nodes):
         d = {}
@@ -600,7 +634,10 @@ def _round_h3_rules(ck, prog):
         while cur is not None and not guarded:
             if isinstance(cur, ast.If) and any(r is x for b in cur.body for x in ast.walk(b)):
                 t = expanded(cur.test)
-                guarded = ("should_complete" in t or "is_complete" in t or "should_continue" in t) and "not " in t
+                # a CONJUNCT of the test is the negated policy: `suspended and not decided` - with `or` the suspension is raised whenever one was recorded
+                conj = cur.test.values if isinstance(cur.test, ast.BoolOp) and isinstance(cur.test.op, ast.And) else ([cur.test] if not isinstance(cur.test, ast.BoolOp) else [])
+                guarded = any(isinstance(c_, ast.UnaryOp) and isinstance(c_.op, ast.Not) and any(w in expanded(c_.operand) for w in ("should_complete", "is_complete", "should_continue"))
+                              for c_ in conj)
             cur = par.get(id(cur))
         all_guarded = all_guarded and guarded
         ck.ob("R5.decided-policy-overrules-a-recorded-suspension", fn_construct(ex), guarded,
